@@ -1,4 +1,5 @@
 import Goflow.Conc.GetOrCreate
+import Goflow.Generated.Sync
 /-!
   C16 — First contact with an exporter is atomic: no template or rate is lost.
   For the re-check-then-adopt publish (the code after the `fix:` commit), any number of threads and
@@ -163,6 +164,18 @@ theorem nothing_lost (n : Nat) (sched : List Nat) : NothingLost (run true (init 
   obtain ⟨hm, hmem⟩ := hinv.2 i s hi
   simp only [visible, hm, List.mem_map, List.mem_filter]
   exact ⟨(s, i), ⟨hmem, by simp⟩, rfl⟩
+
+/-- both get-or-create sites have the shape the protocol with `recheck = true` models: lookup under
+    the read lock, then — under the write lock — a second lookup before the store
+    (regenerated from utils/pipe.go and producer/proto/proto.go on every run) -/
+theorem skeleton_matches :
+    Goflow.Generated.skPipeNetflow =
+      ["p.templateslock.RLock()", "load p.templates[key]", "p.templateslock.RUnlock()", "p.templateslock.Lock()",
+       "load p.templates[key]", "store p.templates[key]", "p.templateslock.Unlock()", "defer p.producer.Commit(flowMessageSet)"] ∧
+    Goflow.Generated.skSamplingSystem =
+      ["p.samplinglock.RLock()", "load p.sampling[key]", "p.samplinglock.RUnlock()", "p.samplinglock.Lock()",
+       "load p.sampling[key]", "store p.sampling[key]", "p.samplinglock.Unlock()"] := by
+  decide +kernel
 
 /-- non-vacuity: a schedule of three racing workers in which all of them finish -/
 example : (run true (init 3) [0, 1, 2, 0, 1, 2, 2, 1, 0, 0, 1, 2]).threads =
